@@ -586,7 +586,46 @@ def _normalize_spec(obj, args):
     return None
 
 
+def _dag_spec(which):
+    def oracle(obj, args):
+        h = args[0]
+        if h < 0 or h > 9:
+            return None
+        mod = importlib.import_module("cnfgen.graphs")
+        D = getattr(mod, which)(h)
+        es = sorted(D.edges())
+        n = D.number_of_vertices()
+        if which == "dag_path":
+            want_n, want = h + 1, [(i, i + 1) for i in range(1, h + 1)]
+        elif which == "dag_complete_binary_tree":
+            want_n = 2 ** (h + 1) - 1
+            want = []
+            # leaves 1..2^h, then level by level; the parent of children (2j-1, 2j) of a level is the j-th vertex of the next
+            start, width = 1, 2 ** h
+            while width > 1:
+                nxt = start + width
+                for j in range(width // 2):
+                    want += [(start + 2 * j, nxt + j), (start + 2 * j + 1, nxt + j)]
+                start, width = nxt, width // 2
+        else:
+            want_n = (h + 1) * (h + 2) // 2
+            want = []
+            start, width = 1, h + 1
+            while width > 1:
+                nxt = start + width
+                for j in range(width - 1):
+                    want += [(start + j, nxt + j), (start + j + 1, nxt + j)]
+                start, width = nxt, width - 1
+        if n != want_n or es != sorted(want):
+            return {"height": h, "vertices": n, "expected_vertices": want_n, "edges": es[:12], "expected": sorted(want)[:12]}
+        return None
+    return oracle
+
+
 ORACLES = {
+    "dag_path": _dag_spec("dag_path"),
+    "dag_complete_binary_tree": _dag_spec("dag_complete_binary_tree"),
+    "dag_pyramid": _dag_spec("dag_pyramid"),
     "BlockOfVariables.to_index": _group_roundtrip_to_index,
     "BinaryMappingVariables.to_index": _group_roundtrip_to_index,
     "BipartiteEdgesVariables.to_index": _group_roundtrip_to_index,
